@@ -124,6 +124,29 @@ def run_worker(specs, hashseed, timeout=120):
         shutil.rmtree(tmp, ignore_errors=True)
 
 
+def tasks_inside(t):
+    """the task and every task object nested in its parameters, depth first in discovery order"""
+    from labtech.tasks import get_direct_dependency_instances
+    out = [t]
+    for d in get_direct_dependency_instances(t):
+        out += tasks_inside(d)
+    return out
+
+
+def start_unpickle_worker(items, hashseed):
+    """items: [{spec, key, deps, blobs}] -> a fresh interpreter with its own PYTHONHASHSEED unpickles and checks them"""
+    import pickle
+    tmp = tempfile.mkdtemp(prefix='verif-px-')
+    inp, outp, log = (os.path.join(tmp, n) for n in ('in.pkl', 'out.json', 'log.txt'))
+    pickle.dump(items, open(inp, 'wb'))
+    repo = os.environ.get('VERIF_REPO', '/repo')
+    env = dict(os.environ, PYTHONHASHSEED=str(hashseed), PYTHONPATH=HERE + os.pathsep + repo)
+    lf = open(log, 'w')
+    p = subprocess.Popen([sys.executable, os.path.join(HERE, 'paramworker.py'), '--unpickle', inp, outp], stdout=lf, stderr=lf,
+                         stdin=subprocess.DEVNULL, start_new_session=True, env=env)
+    return dict(tmp=tmp, outp=outp, log=log, lf=lf, p=p)
+
+
 def start_worker(specs, hashseed):
     """non-blocking variant: returns a handle for `finish_worker`"""
     tmp = tempfile.mkdtemp(prefix='verif-pw-')
